@@ -134,6 +134,10 @@ def scenarios_c10(quick, seed):
         out.append({"getters": 1 + j % 3, "bulk": 1 + (j // 3) % 2, "refreshers": 0, "writers": [], "preload": 0,
                     "outcomes": [["nf"], ["val", "nf"], ["nf", "err"], ["val"]][j % 4], "policy": ["random", "pct", "random+inflight", "pct+inflight"][j % 4],
                     "seed": seed * 100000 + 60000 + j, "script": [], "refresh": 0, "bulkkeys": 1 + (j // 6) % 2, "hgate": 0, "bulkref": 0, "inloader": [], "expiry": 0})
+        if j % 8 == 5:
+            # a computation that cancels itself is not a write: the flight is not disturbed and the value it loads must be cached
+            out[-1].update(getters=2, bulk=0, writers=[["computecancel"], ["computecancel", "computecancel"]][(j // 8) % 2], outcomes=["val"],
+                           policy=["random", "pct"][(j // 8) % 2] + "+inflight")
     return out
 
 
